@@ -1,4 +1,5 @@
 import CookModel.Lemmas.SimParser
+import CookModel.Lemmas.ParserBlocks
 /-
   The block parsers on related blocks (see `SimParser.lean`): `metadata_entry`, `section`, text
   blocks, steps without component markers, `parse_block`, `runBlock`, and the fold over all blocks.
@@ -266,5 +267,84 @@ theorem foldl_runBlock_rel {cs : CharSpec} (hu : UwsNL cs) (ext : Ext) (oldStyle
   | cons h1 _ ih =>
     simp only [List.foldl_cons]
     exact ih (fun b hb => hnm b (by simp [hb])) (runBlock_rel hu h1 (hnm _ (by simp)) ext oldStyle he _ _)
+
+/-! ### from characters to tokens -/
+
+theorem singleKind_marker {c : Char} {k : TK} (h : singleKind c = some k) (hk : isMarker k = true) :
+    c = '@' ∨ c = '#' ∨ c = '~' := by
+  unfold singleKind at h
+  cases hf : singleTable.find? (fun p => p.1 == c) with
+  | none => rw [hf] at h; simp at h
+  | some q =>
+    rw [hf] at h
+    simp only [Option.map_some, Option.some.injEq] at h
+    have hm := List.mem_of_find?_eq_some hf
+    have hq := List.find?_some hf
+    have hc : q.1 = c := by simpa using hq
+    have hall : ∀ q ∈ singleTable, isMarker q.2 = true → q.1 = '@' ∨ q.1 = '#' ∨ q.1 = '~' := by decide
+    rw [← hc]; exact hall q hm (by rw [h]; exact hk)
+
+/-- an input without the characters `@ # ~` lexes to a stream without component markers -/
+theorem lexFrom_noMarker (cs : CharSpec) (off : Nat) (s : List Char)
+    (h : '@' ∉ s ∧ '#' ∉ s ∧ '~' ∉ s) : NoMarker (lexFrom cs off s) := by
+  intro t ht
+  cases hk : isMarker t.kind with
+  | false => rfl
+  | true =>
+    exfalso
+    have hkt := (lexFrom_kindText cs off s t ht).2.2.2.2.2.2.2.2.2.2.2.2
+    have hmem : t.kind ∈ singleTable.map (·.2) := by
+      unfold isMarker at hk
+      simp only [Bool.or_eq_true, beq_iff_eq] at hk
+      rcases hk with (hk | hk) | hk <;> rw [hk] <;> decide
+    obtain ⟨c, htxt, hsk⟩ := hkt hmem
+    have hc : c ∈ s := by
+      rw [← lexFrom_tile cs off s]
+      exact List.mem_flatMap.2 ⟨t, ht, by rw [htxt]; simp⟩
+    rcases singleKind_marker hsk hk with rfl | rfl | rfl
+    · exact h.1 hc
+    · exact h.2.1 hc
+    · exact h.2.2 hc
+
+/-- lexed tokens related by `CrlfTok` are related by `TokSim` -/
+theorem crlf_tokSim (cs : CharSpec) (hcs : CrlfSpec cs) (s : List Char) (hs : CrlfSafe s) (off off' : Nat) :
+    LRel TokSim (lexFrom cs off' (crlf s)) (lexFrom cs off s) := by
+  have h := (crlfToks_iff_lrel _ _).1 (lexFrom_crlf_toks cs hcs s hs off off')
+  have hk := lexFrom_kindText cs off s
+  generalize lexFrom cs off' (crlf s) = l' at h
+  generalize lexFrom cs off s = l at h hk
+  induction h with
+  | nil => exact .nil
+  | cons h1 _ ih =>
+    refine .cons (TokSim.of_crlfTok h1 ?_) (ih (fun t ht => hk t (by simp [ht])))
+    intro hn
+    exact (hk _ (by simp)).2.2.1 hn
+
+theorem allBlocks_noMarker (fuel : Nat) (ts : List Tok) (h : NoMarker ts) : ∀ b ∈ allBlocks fuel ts, NoMarker b :=
+  fun b hb t ht => h t (allBlocks_mem fuel ts b hb t ht)
+
+/-- **CRLF conversion at event level, inputs without component markers.** -/
+theorem crlf_events (cs : CharSpec) (hcs : CrlfSpec cs) (hu : UwsNL cs) (ext : Ext) (oldStyle : Bool)
+    (s : List Char) (hs : CrlfSafe s) (off off' : Nat) (hnm : NoMarker (lexFrom cs off s))
+    {acc' acc : Array (Ev α) × Option String} (he : LRel (EvSim cs.uws) acc'.1.toList acc.1.toList) :
+    LRel (EvSim cs.uws)
+      ((allBlocks ((lexFrom cs off' (crlf s)).length + 1) (lexFrom cs off' (crlf s))).foldl
+        (fun a b => runBlock cs ext oldStyle b a.1 a.2) acc').1.toList
+      ((allBlocks ((lexFrom cs off s).length + 1) (lexFrom cs off s)).foldl
+        (fun a b => runBlock cs ext oldStyle b a.1 a.2) acc).1.toList := by
+  have hl := crlf_tokSim cs hcs s hs off off'
+  have hb : LRel (LRel TokSim) (allBlocks ((lexFrom cs off' (crlf s)).length + 1) (lexFrom cs off' (crlf s)))
+      (allBlocks ((lexFrom cs off s).length + 1) (lexFrom cs off s)) := by
+    rw [hl.length_eq]; exact sim_allBlocks tokSim_kindPres _ hl
+  exact foldl_runBlock_rel hu ext oldStyle hb (allBlocks_noMarker _ _ hnm) he
+
+/-- … for whole inputs without front matter -/
+theorem crlf_pullEvents (cs : CharSpec) (hcs : CrlfSpec cs) (hu : UwsNL cs) (ext : Ext)
+    (s : List Char) (hs : CrlfSafe s) (hnm : NoMarker (lex cs s))
+    (h1 : parseFrontmatter cs s = none) (h2 : parseFrontmatter cs (crlf s) = none) :
+    LRel (EvSim cs.uws) (pullEvents (α := α) cs ext (crlf s)).1.toList (pullEvents (α := α) cs ext s).1.toList := by
+  unfold pullEvents
+  simp only [h1, h2]
+  exact crlf_events cs hcs hu ext true s hs 0 0 hnm .nil
 
 end Cook
